@@ -506,6 +506,41 @@ example : scoreXQ [some 1, some 2] [[some 3, some 4], [some (1/2), some 0]] = [s
   decide +kernel
 example : scoreXQ [some 1, none] [[some 3, some 4]] = [none] := by decide +kernel
 
+/-- the poisson guard always yields a finite feature, whatever `poisson` and `ln_1p` are -/
+theorem poissonFeature_finite (ln1p : XQ → XQ) (poisson : XQ) : (poissonFeatureXQ ln1p poisson).isSome := by
+  unfold poissonFeatureXQ
+  split <;> rfl
+
+/-- **C15.featureRow_finite** — over `XQ` (`none` = NaN/±∞): the feature row is finite whenever the 19 other
+features are, for EVERY value of `poisson` (finite or not) and every `ln_1p`: the guard
+`x if x.is_finite() => x, _ => 3.5` maps every non-finite `ln_1p(-poisson)` to the constant 3.5. -/
+theorem featureRow_finite (ln1p : XQ → XQ) (poisson : XQ) (others : List XQ)
+    (h : ∀ x ∈ others, x.isSome) : ∀ x ∈ featureRowXQ ln1p poisson others, x.isSome := by
+  intro x hx
+  simp only [featureRowXQ, List.mem_append, List.mem_cons] at hx
+  rcases hx with hx | rfl | hx
+  · exact h x (List.mem_of_mem_take hx)
+  · exact poissonFeature_finite ln1p poisson
+  · exact h x (List.mem_of_mem_drop hx)
+
+/-- **C15.guarded_scores_finite** — closing the loop with `score_finite`: with a finite eigenvector, every
+PSM whose other features are finite gets a finite discriminant score, whatever its `poisson` is. -/
+theorem guarded_scores_finite (ln1p : XQ → XQ) (w : List XQ) (psms : List (XQ × List XQ))
+    (hw : ∀ x ∈ w, x.isSome) (hf : ∀ q ∈ psms, ∀ x ∈ q.2, x.isSome) :
+    ∀ s ∈ scoreXQ w (psms.map fun q => featureRowXQ ln1p q.1 q.2), s.isSome := by
+  apply score_finite w _ hw
+  intro row hrow
+  simp only [List.mem_map] at hrow
+  obtain ⟨q, hq, rfl⟩ := hrow
+  exact featureRow_finite ln1p q.1 q.2 (hf q hq)
+
+/-- non-vacuity: a non-finite poisson (`none`) with a `ln_1p` that propagates it gives the constant 7/2
+at position 8; a finite one is passed through -/
+example : featureRowXQ (fun x => x) none ((List.range 19).map fun i => some (i : ℚ))
+    = ((List.range 8).map fun i => some (i : ℚ)) ++ some (7/2) :: ((List.range 11).map fun i => some ((i + 8 : ℕ) : ℚ)) := by
+  decide +kernel
+example : poissonFeatureXQ (fun x => x) (some (-2)) = some 2 := by decide +kernel
+
 /-! ### `solve_sound` (stretch goal): which steps of `Gauss::solve_inner` keep every solution
 
 `Sat X m (left, right)` says that `X` solves every row. `reduce`, `backfill` and row swaps keep every
